@@ -19,6 +19,20 @@ local function sink(a: integer) <noinline> end
 EMBEDDINGS = ["toplevel", "nested", "function", "poly", "generic", "ppmacro"]
 
 
+def lit(v):
+    """Nelua literal of the exact integer v in [-2^63, 2^64-1]: values above the int64 range need the
+    _u64 suffix (an unsuffixed literal is an int64)."""
+    if v < 0:
+        return "-%d" % -v if -v <= (1 << 63) - 1 else "(-9223372036854775807 - 1)" if v == -(1 << 63) else None
+    return "%d" % v if v <= (1 << 63) - 1 else "%d_u64" % v
+
+
+LATTICE = sorted({0, 1, 2, 3, 4, 5, 7, 8, 9, 127, 128, 255, 256, 32767, 32768, 65535, 65536,
+                  (1 << 31) - 1, 1 << 31, (1 << 31) + 1, (1 << 32) - 1, 1 << 32, (1 << 32) + 1,
+                  (1 << 63) - 1, 1 << 63, (1 << 63) + 1, (1 << 64) - 2, (1 << 64) - 1,
+                  -1, -2, -128, -129, -32768, -32769, -(1 << 31), -(1 << 31) - 1, -(1 << 32), -(1 << 63) + 1, -(1 << 63)})
+
+
 def hexz(v):
     return ("-%x" % -v) if v < 0 else "%x" % v
 
@@ -99,10 +113,10 @@ class Printer:
             ln = self.emit(ind, "defer"); out += [str(ln), "D"]
             self.block(s[1], ind + 1, out); self.emit(ind, "end")
         elif t == 'index':
-            ln = self.emit(ind, "do local a: [%d]integer; sink(a[%d]) end" % (s[1], s[2]))
+            ln = self.emit(ind, "do local a: [%d]integer; sink(a[%s]) end" % (s[1], lit(s[2])))
             out += [str(ln), "X", hexz(s[1]), hexz(s[2])]
         elif t == 'conv':
-            ln = self.emit(ind, "do local c: %s = %d; end" % (self.type_names[s[1]], s[2]))
+            ln = self.emit(ind, "do local c: %s = %s; end" % (self.type_names[s[1]], lit(s[2])))
             out += [str(ln), "V", str(s[1]), hexz(s[2])]
         else:
             raise ValueError(t)
@@ -295,13 +309,20 @@ class Gen:
         # consts
         k = r.random()
         if k < 0.5:
-            ln = r.choice([1, 2, 4, 8])
-            kk = r.choice([0, ln - 1, r.randint(0, ln - 1)]) if r.random() < 0.8 else r.choice([ln, ln + 1, -1])
+            ln = r.choice([1, 2, 4, 8, 255, 256, 65536])
+            u = r.random()
+            if u < 0.6: kk = r.choice([0, ln - 1, r.randint(0, ln - 1)])
+            elif u < 0.75: kk = r.choice([ln, ln + 1, -1])
+            else: kk = r.choice(LATTICE)          # the whole boundary lattice, up to 2^64-1
             return ('index', ln, kk)
         t = r.randrange(self.ntypes)
         bits, signed = self.typeinfo[t]
         lo_, hi_ = (-(1 << (bits - 1)), (1 << (bits - 1)) - 1) if signed else (0, (1 << bits) - 1)
-        v = r.choice([lo_, hi_, 0, 1, r.randint(lo_, hi_)]) if r.random() < 0.8 else r.choice([lo_ - 1, hi_ + 1, -1])
+        u = r.random()
+        if u < 0.6: v = r.choice([lo_, hi_, 0, 1, r.randint(lo_, hi_)])
+        elif u < 0.75: v = r.choice([lo_ - 1, hi_ + 1, -1])
+        else: v = r.choice(LATTICE)
+        v = max(-(1 << 63), min((1 << 64) - 1, v))
         return ('conv', t, v)
 
     def nest(self, cx):
@@ -354,7 +375,7 @@ def has_last_case_ft(b):
 
 
 # ------------------------------------------------------------------ targeted near-miss programs
-def targeted(rng):
+def targeted(rng, ntypes=1):
     """One program aimed at a case split of the proofs: for every rule a shape that just obeys it and
     shapes that just break it, wrapped in a random context (do / if / loop / function / defer / case)."""
     r = rng
@@ -415,14 +436,13 @@ def targeted(rng):
         [('local', 4, 0), ('while', [('func', 101, [], [('use', 4)])])], [('local', 4, 0), ('defer', [('use', 4), ('assign', 4)])],
         [('local', 4, 2), ('func', 101, [], [('func', 102, [], [('use', 4)])])],
     ]
-    fam = r.choice(["flow", "flow", "labels", "labels", "names", "consts"])
+    consts = [[('index', ln, k)] for ln in (1, 4, 256) for k in LATTICE] + \
+             [[('conv', t, v)] for t in range(ntypes) for v in LATTICE]
+    fam = r.choice(["flow", "flow", "labels", "labels", "names", "consts", "consts"])
     if fam == "flow": core = r.choice(flow)
     elif fam == "labels": core = r.choice(labels)
     elif fam == "names": core = r.choice(names)
-    else:
-        core = None
-    if core is None:
-        return None, fam
+    else: core = r.choice(consts)
     core = [x for x in core]
     # random context
     body = core
